@@ -231,7 +231,8 @@ def rule_near(ctx):
     ip = p.method("Permission", "is_parent")
     body_ok = any(isinstance(t, ast.Try) and any(isinstance(x, ast.Call) and isinstance(x.func, ast.Attribute) and x.func.attr == "relative_to"
                                                   and src(x.func.value) == [a.arg for a in ip.args.args][1] and [src(z) for z in x.args] == ["self.path"] for s in t.body for x in ast.walk(s))
-                  and any(isinstance(r, ast.Return) and isinstance(r.value, ast.Constant) and r.value.value is True for s in t.body + t.orelse for r in ast.walk(s))
+                  and (any(isinstance(r, ast.Return) and isinstance(r.value, ast.Constant) and r.value.value is True for s in t.body + t.orelse for r in ast.walk(s))
+                       or (t in ip.body and any(isinstance(r, ast.Return) and isinstance(r.value, ast.Constant) and r.value.value is True for r in ip.body[ip.body.index(t) + 1:])))
                   and any(isinstance(r, ast.Return) and isinstance(r.value, ast.Constant) and r.value.value is False for h in t.handlers for s in h.body for r in ast.walk(s))
                   for t in walk_no_nested(ip)) or any(isinstance(x, ast.Call) and isinstance(x.func, ast.Attribute) and x.func.attr == "is_relative_to" for x in ast.walk(ip))
     other_ = [a.arg for a in ip.args.args][1] if len(ip.args.args) > 1 else "other"
